@@ -56,7 +56,7 @@ def directed():
 
 
 def gen(rng, tier):
-    n = {"quick": 400, "thorough": 12000, "search": 15000}[tier]
+    n = {"quick": 1000, "thorough": 20000, "search": 20000}[tier]
     for i, ops in enumerate(directed()):
         yield Case("s_health", ops, "directed-%d" % i)
     for i in range(n):
